@@ -7,6 +7,9 @@
 // task finishes.
 #include <pthread.h>
 #include <semaphore.h>
+#include <sys/wait.h>
+#include <unistd.h>
+#include <errno.h>
 
 #include <map>
 #include <string>
@@ -170,6 +173,15 @@ SPlan GenerateSPlan(uint64_t seed, int max_tasks, bool canary) {
         std::vector<const std::vector<uint8_t> *> none;
         op.faults = RandomFaultPlan(ro.Fork("f"), 300, none);
       }
+      if (op.kind <= 1 && ro.Fork("slow").Chance(1, 4)) {
+        // The slowest, most thorough encoder configuration on a mesh that is
+        // large enough for every prediction scheme to engage.
+        op.w = GenerateWorkload(ro.Fork("w2"), 1, 0);
+        op.w.n = static_cast<int>(ro.Fork("n2").Range(60, 300));
+        op.w.method = ro.Chance(1, 2) ? 1 : -1;
+        op.w.espeed = op.w.dspeed = static_cast<int>(ro.Fork("s2").Below(2));
+        op.w.expert = 0;
+      }
       ops.push_back(op);
     }
     if (canary) {
@@ -179,6 +191,17 @@ SPlan GenerateSPlan(uint64_t seed, int max_tasks, bool canary) {
       ops.insert(ops.begin() + (ops.size() > 1 ? 1 : 0), c);
     }
     p.tasks.push_back(ops);
+  }
+  // Sibling tasks (a third of the plans): every task performs the same
+  // operations with the same options on data of the same shape and range but
+  // different content - the callers of a server decoding "many similar meshes
+  // in parallel". State keyed too coarsely is shared exactly between those.
+  if (!canary && r.Fork("siblings").Chance(1, 3)) {
+    for (size_t t = 1; t < p.tasks.size(); ++t) {
+      p.tasks[t] = p.tasks[0];
+      for (SOp &op : p.tasks[t])
+        if (op.kind <= 1) op.w.gseed = mix64(op.w.gseed, t) >> 2;
+    }
   }
   const uint64_t s = r.Below(3);
   p.strategy = s == 0 ? "pct" : "random";
@@ -452,6 +475,7 @@ struct Episode {
   uint64_t static_accesses = 0, total_accesses = 0, yields = 0, switches = 0;
   uint64_t kind_count[Y_NUM] = {0};
   bool all_finished = true;
+  uint64_t trace_hash = 0;
 };
 
 void RunConcurrent(const SPlan &p, const std::vector<std::vector<OpInput>> &in,
@@ -506,30 +530,24 @@ struct SFinding {
   std::string cls, sig, detail;
 };
 
-// Solo references, then the concurrent episode. Returns the event-log hash.
-uint64_t RunSPlan(const SPlan &plan_in, const std::string &repo,
-                  std::vector<SFinding> *out, Episode *ep_out, SPlan *effective) {
-  SPlan p = plan_in;
-  std::vector<std::vector<OpInput>> in;
-  Prepare(p, repo, &in);
-  // Solo phase: every task alone, in order, on this thread.
+uint64_t TraceHash(const std::vector<Switch> &t);
+
+// One episode, in-process: the concurrent phase FIRST, on whatever state the
+// process has, then every task alone for the reference results. (Dropping ops
+// that run very long is decided by a deterministic access counter.)
+uint64_t RunSPlanInProcess(const SPlan &p, std::vector<std::vector<OpInput>> &in,
+                           std::vector<SFinding> *out, Episode *ep_out) {
+  Episode ep;
+  RunConcurrent(p, in, &ep);
   std::vector<std::vector<OpResult>> solo(p.tasks.size());
   for (size_t t = 0; t < p.tasks.size(); ++t) {
     for (size_t k = 0; k < p.tasks[t].size(); ++k) {
       OpResult r;
       TsanTaskStart(static_cast<int>(t));
       RunOp(p.tasks[t][k], in[t][k], &r);
-      // Ops that run for very long alone are dropped from both phases (keeps
-      // schedules short; decided by a deterministic counter, not by time).
-      if (TsanThreadAccesses() > 400000000ull) {
-        in[t][k].usable = false;
-        r = OpResult();
-      }
       solo[t].push_back(r);
     }
   }
-  Episode ep;
-  RunConcurrent(p, in, &ep);
   Hasher h;
   for (size_t t = 0; t < ep.results.size(); ++t)
     for (const OpResult &r : ep.results[t]) {
@@ -549,7 +567,7 @@ uint64_t RunSPlan(const SPlan &plan_in, const std::string &repo,
     SFinding f;
     f.cls = "data_race";
     f.sig = "data_race|" + r.symbol;
-    char buf[256];
+    char buf[400];
     snprintf(buf, sizeof(buf),
              "%s by task %d and %s by task %d on static storage %s (pcs %lx, %lx) "
              "unordered by happens-before",
@@ -582,12 +600,200 @@ uint64_t RunSPlan(const SPlan &plan_in, const std::string &repo,
     }
   }
   if (ep_out) *ep_out = ep;
+  return h.Digest();
+}
+
+bool ReadAll(int fd, std::string *out) {
+  char buf[65536];
+  while (true) {
+    ssize_t n = read(fd, buf, sizeof(buf));
+    if (n < 0 && errno == EINTR) continue;
+    if (n <= 0) break;
+    out->append(buf, static_cast<size_t>(n));
+  }
+  return true;
+}
+void WriteAllFd(int fd, const std::string &s) {
+  size_t off = 0;
+  while (off < s.size()) {
+    ssize_t n = write(fd, s.data() + off, s.size() - off);
+    if (n < 0 && errno == EINTR) continue;
+    if (n <= 0) return;
+    off += static_cast<size_t>(n);
+  }
+}
+
+// One episode with process isolation. The calling worker never runs codec code
+// itself: a helper child produces the input streams (that warms *its* copy of
+// any lazily initialised state), then a second, cold child builds the
+// geometries, runs the concurrent phase first and the solo references after,
+// and reports. Every episode therefore starts from the state of a freshly
+// started process - the "restart" of this simulation - and a static cache or
+// table that is still being filled is exposed to the schedule search.
+uint64_t RunSPlan(const SPlan &plan_in, const std::string &repo,
+                  std::vector<SFinding> *out, Episode *ep_out, SPlan *effective) {
+  const SPlan &p = plan_in;
+  // ---- helper child: input streams ----
+  std::vector<std::vector<OpInput>> in(p.tasks.size());
+  {
+    int fd[2];
+    if (pipe(fd) != 0) abort();
+    pid_t pid = fork();
+    if (pid == 0) {
+      close(fd[0]);
+      std::vector<std::vector<OpInput>> tmp;
+      Prepare(p, repo, &tmp);
+      std::string blob;
+      for (size_t t = 0; t < tmp.size(); ++t)
+        for (size_t k = 0; k < tmp[t].size(); ++k) {
+          uint64_t hdr[2] = {tmp[t][k].usable ? 1ull : 0ull, tmp[t][k].bytes.size()};
+          blob.append(reinterpret_cast<const char *>(hdr), sizeof(hdr));
+          blob.append(reinterpret_cast<const char *>(tmp[t][k].bytes.data()),
+                      tmp[t][k].bytes.size());
+        }
+      WriteAllFd(fd[1], blob);
+      _exit(0);
+    }
+    close(fd[1]);
+    std::string blob;
+    ReadAll(fd[0], &blob);
+    close(fd[0]);
+    int status = 0;
+    waitpid(pid, &status, 0);
+    size_t pos = 0;
+    bool ok = true;
+    for (size_t t = 0; t < p.tasks.size() && ok; ++t)
+      for (size_t k = 0; k < p.tasks[t].size(); ++k) {
+        OpInput oi;
+        if (pos + 16 > blob.size()) {
+          ok = false;
+          break;
+        }
+        uint64_t hdr[2];
+        memcpy(hdr, blob.data() + pos, 16);
+        pos += 16;
+        if (pos + hdr[1] > blob.size()) {
+          ok = false;
+          break;
+        }
+        oi.usable = hdr[0] != 0;
+        oi.bytes.assign(blob.begin() + pos, blob.begin() + pos + hdr[1]);
+        pos += hdr[1];
+        in[t].push_back(std::move(oi));
+      }
+    if (!ok) {
+      // The writer side died (e.g. an encoder crash while preparing inputs):
+      // not a verdict about concurrency.
+      Hasher h;
+      h.U64(0xdead);
+      if (ep_out) *ep_out = Episode();
+      return h.Digest();
+    }
+  }
+  // ---- episode child (cold) ----
+  int fd[2];
+  if (pipe(fd) != 0) abort();
+  pid_t pid = fork();
+  if (pid == 0) {
+    close(fd[0]);
+    for (size_t t = 0; t < p.tasks.size(); ++t)
+      for (size_t k = 0; k < p.tasks[t].size(); ++k)
+        if (p.tasks[t][k].kind == 0 && in[t][k].usable) {
+          in[t][k].geom = BuildGeometry(p.tasks[t][k].w);
+          if (!in[t][k].geom) in[t][k].usable = false;
+        }
+    std::vector<SFinding> fs;
+    Episode ep;
+    const uint64_t h = RunSPlanInProcess(p, in, &fs, &ep);
+    Json j = Json::Object();
+    j["hash"] = Hex64(h);
+    Json fa = Json::Array();
+    for (const SFinding &f : fs) {
+      Json e = Json::Object();
+      e["cls"] = f.cls;
+      e["sig"] = f.sig;
+      e["detail"] = f.detail;
+      fa.push(e);
+    }
+    j["findings"] = fa;
+    j["static"] = static_cast<unsigned long long>(ep.static_accesses);
+    j["total"] = static_cast<unsigned long long>(ep.total_accesses);
+    j["yields"] = static_cast<unsigned long long>(ep.yields);
+    j["switches"] = static_cast<unsigned long long>(ep.switches);
+    j["finished"] = ep.all_finished;
+    Json kc = Json::Array();
+    for (int k = 0; k < Y_NUM; ++k) kc.push(static_cast<unsigned long long>(ep.kind_count[k]));
+    j["kinds"] = kc;
+    j["trace_hash"] = Hex64(TraceHash(ep.trace));
+    // The trace itself only when somebody needs it (findings, samples).
+    if (!fs.empty() || effective) {
+      Json tr = Json::Array();
+      for (const Switch &sw : ep.trace) {
+        Json e = Json::Array();
+        e.push(sw.from);
+        e.push(static_cast<long long>(sw.at));
+        e.push(sw.to);
+        tr.push(e);
+      }
+      j["trace"] = tr;
+    }
+    WriteAllFd(fd[1], j.Dump());
+    _exit(0);
+  }
+  close(fd[1]);
+  std::string text;
+  ReadAll(fd[0], &text);
+  close(fd[0]);
+  int status = 0;
+  waitpid(pid, &status, 0);
+  Json j;
+  if (text.empty() || !Json::Parse(text, &j)) {
+    SFinding f;
+    f.cls = "crash";
+    char buf[96];
+    snprintf(buf, sizeof(buf), "crash_under_schedule|%s:%d",
+             WIFSIGNALED(status) ? "signal" : "exit",
+             WIFSIGNALED(status) ? WTERMSIG(status) : WEXITSTATUS(status));
+    f.sig = buf;
+    f.detail = "the episode process died";
+    out->push_back(f);
+    if (effective) *effective = p;
+    Hasher h;
+    h.Str(f.sig);
+    return h.Digest();
+  }
+  Episode ep;
+  ep.static_accesses = j.get("static").U64();
+  ep.total_accesses = j.get("total").U64();
+  ep.yields = j.get("yields").U64();
+  ep.switches = j.get("switches").U64();
+  ep.all_finished = j.get("finished").Bool();
+  for (int k = 0; k < Y_NUM && k < static_cast<int>(j.get("kinds").size()); ++k)
+    ep.kind_count[k] = j.get("kinds").at(k).U64();
+  const Json &tr = j.get("trace");
+  for (size_t i = 0; i < tr.size(); ++i) {
+    Switch sw;
+    sw.from = static_cast<int>(tr.at(i).at(0).Int());
+    sw.at = tr.at(i).at(1).Int();
+    sw.to = static_cast<int>(tr.at(i).at(2).Int());
+    ep.trace.push_back(sw);
+  }
+  ep.trace_hash = strtoull(j.get("trace_hash").Str().c_str(), nullptr, 16);
+  const Json &fa = j.get("findings");
+  for (size_t i = 0; i < fa.size(); ++i) {
+    SFinding f;
+    f.cls = fa.at(i).get("cls").Str();
+    f.sig = fa.at(i).get("sig").Str();
+    f.detail = fa.at(i).get("detail").Str();
+    out->push_back(f);
+  }
+  if (ep_out) *ep_out = ep;
   if (effective) {
     *effective = p;
     effective->strategy = "replay";
     effective->schedule = ep.trace;
   }
-  return h.Digest();
+  return strtoull(j.get("hash").Str().c_str(), nullptr, 16);
 }
 
 Json SFindingsToJson(const std::vector<SFinding> &fs, const SPlan &replayable,
@@ -666,8 +872,7 @@ int SchedMain(const std::map<std::string, std::string> &a, const std::string &cm
     cb.init = [&](int) {
       w_runs = w_tasks = w_ops = w_static = w_total = w_yields = w_switches = w_with = 0;
       memset(w_yk, 0, sizeof(w_yk));
-      std::vector<SFinding> f;
-      RunSPlan(GenerateSPlan(mix64(seed, 0x3a3a), 2, false), repo, &f, nullptr, nullptr);
+      // No warm-up: the worker itself never runs codec code (see RunSPlan).
     };
     cb.run = [&](uint64_t idx, std::string *out) {
       if (sample_mod > 1 && idx % sample_mod != 0 && idx >= 2) return;
@@ -686,7 +891,7 @@ int SchedMain(const std::map<std::string, std::string> &a, const std::string &cm
       if (ep.switches) ++w_with;
       for (int k = 0; k < Y_NUM; ++k) w_yk[k] += ep.kind_count[k];
       ++w_strat[p.strategy];
-      w_traces.push_back(TraceHash(ep.trace));
+      w_traces.push_back(ep.trace_hash);
       if (hashlog) PoolLogRunHash(idx, h);
       if (idx < 2) {
         // Canaries: the racy static must be reported; the guarded initialiser
